@@ -4,7 +4,7 @@
    model (Known/DurationModel.v, Known/TimestampModel.v) wraps at every Go
    arithmetic operation. *)
 From Coq Require Import ZArith Bool.
-From PB Require Import Known.DurationModel Known.DurationP Known.TimestampModel Known.TimestampP.
+From PB Require Import Base.GoInt Gen.KnownGo Known.DurationModel Known.DurationP Known.TimestampModel Known.TimestampP Known.KnownGoP.
 Open Scope Z_scope.
 
 (* durationpb.New(d).AsDuration() == d for every time.Duration *)
@@ -99,6 +99,67 @@ Theorem C43_check_error_classes_timestamp :
   (ts_check secs nanos = 4 <-> -62135596800 <= secs <= 253402300799 /\ (nanos < 0 \/ nanos >= 1000000000)).
 Proof. exact ts_check_classes. Qed.
 Print Assumptions C43_check_error_classes_timestamp.
+
+(* ---------------- Tier T: the Go source itself ----------------
+   Gen/KnownGo.v is the Gallina translation of the current source of durationpb / timestamppb
+   (regenerated on every check by srcmodel_known; methods on (x *T) are functions of
+   x_nil := (x == nil) and the fields of x; a time.Time argument is represented by its Unix()
+   and Nanosecond() values).  The translated functions equal the hand-written models, so every
+   theorem above is a theorem about the translated source. *)
+Theorem C43_go_constants_match_source :
+  c_dur_check_absDuration = abs_duration /\
+  c_ts_check_minTimestamp = min_timestamp /\ c_ts_check_maxTimestamp = max_timestamp /\
+  (c_dur_invalidNil, c_dur_invalidUnderflow, c_dur_invalidOverflow, c_dur_invalidNanosRange, c_dur_invalidNanosSign) = (1, 2, 3, 4, 5) /\
+  (c_ts_invalidNil, c_ts_invalidUnderflow, c_ts_invalidOverflow, c_ts_invalidNanos) = (1, 2, 3, 4).
+Proof. exact known_constants_match_source. Qed.
+Print Assumptions C43_go_constants_match_source.
+
+Theorem C43_go_duration_New :
+  forall d, in_int64 d -> go_dur_New d = dur_new d.
+Proof. exact go_dur_New_model. Qed.
+Print Assumptions C43_go_duration_New.
+
+Theorem C43_go_duration_AsDuration :
+  forall secs nanos, in_int64 secs -> in_int32 nanos ->
+  go_dur_Duration_AsDuration false secs nanos = as_duration secs nanos.
+Proof. exact go_dur_AsDuration_model. Qed.
+Print Assumptions C43_go_duration_AsDuration.
+
+Theorem C43_go_duration_AsDuration_nil :
+  forall secs nanos, go_dur_Duration_AsDuration true secs nanos = 0.
+Proof. exact go_dur_AsDuration_nil. Qed.
+Print Assumptions C43_go_duration_AsDuration_nil.
+
+Theorem C43_go_duration_check :
+  forall x_nil secs nanos,
+  go_dur_Duration_check x_nil secs nanos = dur_check_opt (if x_nil then None else Some (secs, nanos)) /\
+  go_dur_Duration_IsValid x_nil secs nanos = (dur_check_opt (if x_nil then None else Some (secs, nanos)) =? 0).
+Proof. exact (fun n s k => conj (go_dur_check_model n s k) (go_dur_IsValid_model n s k)). Qed.
+Print Assumptions C43_go_duration_check.
+
+Theorem C43_go_timestamp_New :
+  forall t, time_ok t -> go_ts_New (time_unix t) (time_nanosecond t) = ts_new t.
+Proof. exact go_ts_New_model. Qed.
+Print Assumptions C43_go_timestamp_New.
+
+Theorem C43_go_timestamp_check :
+  forall x_nil secs nanos,
+  go_ts_Timestamp_check x_nil secs nanos = ts_check_opt (if x_nil then None else Some (secs, nanos)) /\
+  go_ts_Timestamp_IsValid x_nil secs nanos = (ts_check_opt (if x_nil then None else Some (secs, nanos)) =? 0).
+Proof. exact (fun n s k => conj (go_ts_check_model n s k) (go_ts_IsValid_model n s k)). Qed.
+Print Assumptions C43_go_timestamp_check.
+
+(* the headline theorems restated on the translated source *)
+Theorem C43_go_duration_new_as_inverse :
+  forall d, in_int64 d -> let '(s, n) := go_dur_New d in go_dur_Duration_AsDuration false s n = d.
+Proof. exact go_duration_new_as_inverse. Qed.
+Print Assumptions C43_go_duration_new_as_inverse.
+
+Theorem C43_go_as_duration_exact_clamped_except_F4 :
+  forall secs nanos, in_int64 secs -> in_int32 nanos -> f4_class secs nanos = false ->
+  go_dur_Duration_AsDuration false secs nanos = clamp64 (secs * e9 + nanos).
+Proof. exact go_as_duration_exact_clamped_except_F4. Qed.
+Print Assumptions C43_go_as_duration_exact_clamped_except_F4.
 
 (* ---- non-vacuity ---- *)
 Example C43_ex_new : dur_new (-1500000001) = (-1, -500000001) /\ as_duration (-1) (-500000001) = -1500000001.
